@@ -159,6 +159,8 @@ def requirement(f, rq, entry=None):
         b = f.body(rq["fn"])
         if b is None:
             return False, "%s not found" % rq["fn"]
+        from inline import inlined
+        b = inlined(f, b)       # a check moved into a private helper counts once per call of the helper
         n = 0
         for i, j, st in F.stmts(b):
             if st[0] == "assign" and st[2][0] == "binop" and st[2][1] in rq["ops"] and rq["const"] in (F.const_int(st[2][2]), F.const_int(st[2][3])):
@@ -248,6 +250,8 @@ def requirement(f, rq, entry=None):
         b = f.body(rq["fn"])
         if b is None:
             return False, "%s not found" % rq["fn"]
+        from inline import inlined
+        b = inlined(f, b)
         fl = Flow(b)
         n = 0
         for i, j, st in F.stmts(b):
